@@ -323,6 +323,51 @@ def _reaches_without_loop(cfg, start, target, barrier):
     return target in cfg.reachable_from([start], cut={barrier})
 
 
+def r2b_backend_always_invoked(run, F):
+    """`penne build` and `penne run` hand the IR to a backend, whatever its name resolves to; only `penne emit` stops before that.
+    Whether the backend step is skipped is a constant of the subcommand (the `skip_backend` field of MainArgs: a literal in each
+    arm of the argument resolution, true for one arm only), never something computed from the backend string, the environment or
+    the config file -- an empty PENNE_LLI must end in "No such file or directory", not in a silent success that runs nothing."""
+    from rules import origins
+    b = F.bin.bodies.get("do_main")
+    run.require(b is not None and "hir" in b, "do_main not found in the binary crate")
+    sites = []
+
+    def visit(n, anc):
+        if n.get("k") == "Call" and (hirq.callee(n) or "") == "generate_output":
+            sites.append(list(anc))
+        for slot, c in hirq._children(n):
+            anc.append((n, slot))
+            visit(c, anc)
+            anc.pop()
+    visit(b["hir"], [])
+    run.require(len(sites) >= 1, "do_main: call of generate_output not found")
+    flags = []
+    for anc in sites:
+        for a, slot in anc:
+            if a.get("k") == "If" and slot == "then":
+                for x in walk(a["cond"]):
+                    if x.get("k") == "Path" and x.get("rk") == "Local" and str(F.bin.types[x["t"]]) == "bool":
+                        flags.append(x)
+    run.require(len(flags) >= 1, "do_main: the flag that guards generate_output was not found")
+    for x in flags[:1]:
+        prod = sorted(map(str, origins.producers(b["hir"], x, b.get("params", ()))))
+        ok = bool(prod) and all(p_.startswith("('patfield', 'MainArgs'") for p_ in prod)
+        run.ob("R2-BACKEND-INVOKED", "skip decided by the subcommand", ok, F.where(b, x),
+               "the flag that lets do_main skip generate_output is a field of the resolved arguments, not computed from other data: produced by %s" % prod)
+    tf = [bb for p, bb in F.bin.bodies.items() if "hir" in bb and p.endswith("TryFrom<Cli>>::try_from") and "MainArgs" in p]
+    run.require(len(tf) == 1, "MainArgs::try_from not found")
+    vals = []
+    for path, node in hirq.constructs(tf[0]["hir"]):
+        if path.endswith("MainArgs"):
+            for f in node.get("fields", []):
+                t = str(F.bin.types[hirq.unwrap_trivial(f["e"])["t"]]) if hirq.unwrap_trivial(f["e"]).get("t") is not None else ""
+                if t == "bool" and any(("patfield", "MainArgs", f["name"]) == k for k in origins.producers(b["hir"], flags[0], b.get("params", ()))):
+                    vals.append(hirq.unwrap_trivial(f["e"]).get("v"))
+    run.ob("R2-BACKEND-INVOKED", "one subcommand skips the backend", len(vals) >= 3 and all(isinstance(v, bool) for v in vals) and vals.count(True) == 1, F.where(tf[0]),
+           "the skip flag is a literal in every arm of the argument resolution and true in exactly one (emit): %s" % vals)
+
+
 def r5_stdout(run, F):
     methods = [b for p, b in F.lib.bodies.items() if p.startswith(SO) and "{closure" not in p and p != SO + "new" and "mir" in b]
     run.require(len(methods) >= 15, "StdOut methods not found (%d)" % len(methods))
@@ -444,6 +489,7 @@ def check(run):
     F = run.facts("B")
     r1_status(run, F)
     r2_output(run, F)
+    r2b_backend_always_invoked(run, F)
     r3_backend(run, F)
     r4_outdir(run, F)
     r5_stdout(run, F)
